@@ -1,0 +1,68 @@
+/*
+ * Schedule points for the verification harness (see the libqb verification
+ * framework, property C01).  Without CLUSTERLABS_LIBQB_VERIF every
+ * QB_VERIF_POINT() expands to an empty statement and the library is
+ * unchanged.  With it, a harness that defines qb_verif_point() is called
+ * between the individual accesses to the shared ring buffer words, so that it
+ * can run a writer and a reader under a deterministic schedule; a program that
+ * does not define qb_verif_point() (weak reference) is not affected.
+ */
+#ifndef QB_VERIF_HOOKS_H_DEFINED
+#define QB_VERIF_HOOKS_H_DEFINED
+
+/*
+ * Each id names the shared access (or semaphore operation) that FOLLOWS the
+ * point.  The code between two consecutive points performs exactly one shared
+ * access, except where noted.
+ */
+enum qb_verif_point_id {
+	/* qb_rb_space_free (the load of write_pt precedes the first point) */
+	QB_VP_RB_SF_RD = 1,	/* load read_pt */
+	QB_VP_RB_SF_CMP = 2,	/* compare; q_len_fn (sem_getvalue) iff both equal */
+	/* qb_rb_chunk_alloc */
+	QB_VP_RB_AL_WP = 3,	/* load write_pt */
+	QB_VP_RB_AL_SZ = 4,	/* store size := 0 */
+	QB_VP_RB_AL_MG = 5,	/* store magic := ALLOC */
+	/* qb_rb_chunk_write */
+	QB_VP_RB_WR_CPY = 6,	/* memcpy of the payload (one step) */
+	/* qb_rb_chunk_commit */
+	QB_VP_RB_CM_WP = 7,	/* load write_pt */
+	QB_VP_RB_CM_SZ = 8,	/* store size := len */
+	QB_VP_RB_CM_STEP = 9,	/* qb_rb_chunk_step: load size */
+	QB_VP_RB_CM_NEXT = 10,	/* guarded store next magic := DEAD */
+	QB_VP_RB_CM_SETWP = 11,	/* store write_pt */
+	QB_VP_RB_CM_MG = 12,	/* store magic := MAGIC */
+	QB_VP_RB_CM_POST = 13,	/* post_fn (sem_post) */
+	/* _rb_chunk_reclaim */
+	QB_VP_RB_RC_RP = 14,	/* load read_pt */
+	QB_VP_RB_RC_MG = 15,	/* load magic */
+	QB_VP_RB_RC_SZ = 16,	/* load size */
+	QB_VP_RB_RC_STEP = 17,	/* qb_rb_chunk_step: load size */
+	QB_VP_RB_RC_CLR = 18,	/* store size := 0 */
+	QB_VP_RB_RC_DEAD = 19,	/* store magic := DEAD */
+	QB_VP_RB_RC_SETRP = 20,	/* store read_pt */
+	/* qb_rb_chunk_peek (timedwait_fn precedes the first point) */
+	QB_VP_RB_PK_RP = 21,	/* load read_pt */
+	QB_VP_RB_PK_MG = 22,	/* load magic */
+	QB_VP_RB_PK_BAD = 23,	/* post_fn on -EBADMSG */
+	QB_VP_RB_PK_SZ = 24,	/* load size */
+	/* qb_rb_chunk_read (timedwait_fn precedes the first point) */
+	QB_VP_RB_RD_RP = 25,	/* load read_pt */
+	QB_VP_RB_RD_MG = 26,	/* load magic */
+	QB_VP_RB_RD_BAD = 27,	/* post_fn on -EBADMSG */
+	QB_VP_RB_RD_SZ = 28,	/* load size */
+	QB_VP_RB_RD_SHORT = 29,	/* post_fn on -ENOBUFS */
+	QB_VP_RB_RD_CPY = 30	/* memcpy of the payload (one step) */
+};
+
+#ifdef CLUSTERLABS_LIBQB_VERIF
+extern void qb_verif_point(int id, const void *obj) __attribute__((weak));
+#define QB_VERIF_POINT(id, obj) \
+do {							\
+	if (qb_verif_point) qb_verif_point((id), (obj));	\
+} while (0)
+#else
+#define QB_VERIF_POINT(id, obj) do {} while (0)
+#endif /* CLUSTERLABS_LIBQB_VERIF */
+
+#endif /* QB_VERIF_HOOKS_H_DEFINED */
